@@ -124,6 +124,31 @@ def check_equal(ctx, inst, ty=None):
     for b, v, cs in fn_table(ctx, f):
         va = [x for x in ("Token", "NativeToken") if "%s in ['%s']" % (a, x) in cs]
         vb = [x for x in ("Token", "NativeToken") if "%s in ['%s']" % (b_, x) in cs]
+        if (len(va) != 1 or len(vb) != 1) and v == ("const", "int", 0):
+            # a shared `false` arm (e.g. `(Token, Native) | (Native, Token) => false` of a tuple match): decide per path
+            paths = common.path_conditions(P, f, b)
+            okp = paths is not None and len(paths) > 0
+            for path in (paths or []):
+                kinds = {}
+                for (sw, tb) in path:
+                    ty = common.discr_place_ty(f, sw)
+                    cnd = common.switch_cond(P, f, sw)
+                    if ty is None or cnd is None or cnd[0] != "discr":
+                        okp = False
+                        continue
+                    t_ = f.body.blocks[sw]["term"]
+                    labs = [common.variant_name(P, ty, val) for val, tgt in t_["arms"] if tgt == tb]
+                    if not labs and t_["otherwise"] == tb:
+                        listed = {common.variant_name(P, ty, x) for x, _ in t_["arms"]}
+                        labs = [x for x in (common.all_variants(P, ty) or []) if x not in listed]
+                    key = "|".join(sorted(ctx.roots(cnd[1])))
+                    if len(labs) == 1:
+                        kinds[key] = labs[0]
+                ka, kb = kinds.get(P_(f, 0)), kinds.get(P_(f, 1))
+                if ka is None or kb is None or ka == kb:
+                    okp = False
+            if okp:
+                continue
         if len(va) != 1 or len(vb) != 1 or len(cs) != 2:
             good = False
             inst.fail("%s:equal:region" % inst.id, f.path, common.span_of_block_term(f, b), "result assigned under unexpected conditions {%s}: unrecognised-idiom" % "; ".join(sorted(cs)))
